@@ -93,6 +93,11 @@ class ColumnBackend(ArraySchemaBackend):
                     error_handler.collect_error(
                         validation_type(err.reason_code), err.reason_code, err
                     )
+                if return_check_obj and schema.parsers:
+                    # keep the output of the parsers even though some checks
+                    # failed, so that lazy validation reports (and
+                    # drop_invalid_rows returns) the parsed column.
+                    return errs.data
             except SchemaError as err:
                 err.column_name = column_name
                 error_handler.collect_error(
